@@ -105,6 +105,14 @@ def _downgrade_opaque(prog: Program, res: Result) -> None:
         for q in f.context:
             if q in prog.functions:
                 reasons += prog.opaque_context(prog.functions[q])
+        # helpers the rule's model was read through (stated by the rule)
+        through = {q[len("<sees:"):-1] for q in f.context
+                   if q.startswith("<sees:")}
+        if through:
+            reasons = [r for r in reasons if not any(
+                r.startswith(f"calls {q} (not inlinable)")
+                or r.startswith(f"calls {q.split(':')[-1]} (not inlinable)")
+                for q in through)]
         if "<specialised>" in f.context:
             # the rule read the method with its class level configuration
             # resolved for the receiver's class (Program.specialise)
